@@ -135,7 +135,7 @@ pub fn run(keys: &serde_json::Map<String, Value>, deco: &[Value], time_classes: 
     let reserved = ["iss", "sub", "aud", "exp", "nbf", "iat", "jti"];
     for i in 0..(if thorough { 20000 } else { 2000 }) {
         let l = r.gen_range(0..12);
-        let c = r.gen_range(0..5);
+        let c = r.gen_range(0..6);
         let k = conc::message(&mut r, l, c);
         if reserved.contains(&k.as_str()) {
             continue;
@@ -208,7 +208,7 @@ pub fn run(keys: &serde_json::Map<String, Value>, deco: &[Value], time_classes: 
         "２９９９-01-01T00:00:00Z".into(), "x2999-01-01T00:00:00Z".into(), "null".into(), "\0".into(), "٢٠٢٠-01-01T00:00:00Z".into()];
     for _ in 0..(if thorough { 5000 } else { 500 }) {
         let l = r.gen_range(0..30);
-        let c = r.gen_range(0..5);
+        let c = r.gen_range(0..6);
         let s = conc::message(&mut r, l, c);
         let first4: Vec<char> = s.chars().take(4).collect();
         let starts_like_date = first4.len() == 4 && first4.iter().all(|c| c.is_ascii_digit());
